@@ -201,6 +201,8 @@ NUM = st.sampled_from(["float", "float", "int", "np.int64"])
 
 def _typed(x, num):
     """the number as the Python/numpy type the case asks for (integer types: x is a whole number)"""
+    if num != "float" and x > 2.0 ** 53:      # beyond exact whole-number doubles (and soon beyond int64): stays a float
+        return float(x)
     if num == "int":
         return int(x)
     if num == "np.int64":
